@@ -191,9 +191,17 @@ def snippet(z, /, t, n):
             raise ValueError("t is a Time object, but signal has no start time.")
 
         t = (t - z.start_time).to(u.s)
+        # Times are only resolved to ~40 ps (same tolerance as Time.isclose)
+        tol = (2 * np.finfo(float).eps * u.day * z.sample_rate).to_value(u.one)
+    else:
+        tol = 0
 
     if isinstance(t, u.Quantity):
         t = (t * z.sample_rate).to_value(u.one)
+
+        # Snap to the sample grid if within rounding error of a whole sample
+        if abs(t - round(t)) <= max(tol, 8 * np.finfo(float).eps * abs(t)):
+            t = round(t)
 
     if (t < 0) or (len(z) < t + n):
         raise ValueError("Requested snippet goes out of bounds.")
